@@ -71,6 +71,7 @@ type stressResult struct {
 	deliveries int
 	mustPairs  int
 	fatal      bool
+	skipped    bool
 	ops        map[string]int
 }
 
@@ -122,6 +123,12 @@ func runStress(cfg stressCfg, pool []*keyT) *stressResult {
 	cols[0].react.Store(reaction)
 	colMu.Unlock()
 	if err := w.Initialize(ctx); err != nil {
+		if envExhausted(err) {
+			res.skipped = true
+			_ = closeWithDeadline(w, 5*time.Second)
+			close(stop)
+			return res
+		}
 		fail("Initialize failed on an existing directory", err.Error())
 		return res
 	}
@@ -129,6 +136,8 @@ func runStress(cfg stressCfg, pool []*keyT) *stressResult {
 	// created addresses: logical time before the first file of the address was written
 	var crMu sync.Mutex
 	createBegin := map[string]int64{}
+	var keyMu sync.Mutex
+	var sharedKeys []*keyT // real key files completely written (any worker may sign with them, also concurrently)
 	var opMu sync.Mutex
 	hit := func(k string) { opMu.Lock(); res.ops[k]++; opMu.Unlock() }
 
@@ -195,6 +204,9 @@ func runStress(cfg stressCfg, pool []*keyT) *stressResult {
 					crMu.Unlock()
 					_ = os.WriteFile(filepath.Join(dir, myKey.hex()+".pwd"), myKey.password, 0o644)
 					_ = os.WriteFile(filepath.Join(dir, myKey.hex()+primaryExt), myKey.file, 0o644)
+					keyMu.Lock()
+					sharedKeys = append(sharedKeys, myKey)
+					keyMu.Unlock()
 					hit("create-real-key")
 				case k < 8: // a file that must be ignored
 					_ = os.WriteFile(filepath.Join(dir, hex.EncodeToString(r.Bytes(19))+primaryExt), []byte("{}"), 0o644)
@@ -216,7 +228,14 @@ func runStress(cfg stressCfg, pool []*keyT) *stressResult {
 					atomic.StoreInt64(&c.regDone, clock.Add(1))
 					hit("addListener")
 				case k < 19:
-					if myKey != nil && keyCreated {
+					keyMu.Lock()
+					var key *keyT
+					if len(sharedKeys) > 0 {
+						key = sharedKeys[r.Intn(len(sharedKeys))]
+					}
+					keyMu.Unlock()
+					if key != nil {
+						myKey := key
 						listed := checkAccounts()[myKey.hex()]
 						var a ethtypes.Address0xHex
 						copy(a[:], myKey.addr)
